@@ -44,7 +44,7 @@ PyObject* py_center_of_mass(PyObject* self, PyObject* args) {
     double * totals = &total_sum;
     int max_label = 0;
     if (!PyArg_ParseTuple(args,"OO", &array, &labels_obj)) return NULL;
-    if (!PyArray_Check(array)) {
+    if (!numpy::are_arrays(array)) {
         PyErr_Format(PyExc_RuntimeError, "%s (first argument is not an array)", TypeErrorMsg);
         return NULL;
     }
